@@ -735,3 +735,30 @@ Proof.
   intros HI Ho. apply opt_reachable_ok in Ho.
   destruct (opt_add_model_spec n w okp m o HI Ho) as (_ & B & C & D & F). cbv zeta. auto.
 Qed.
+
+(* ------------------------------------------------------------------ the statement can fail
+   "A rejected add changes nothing" is not granted by the monad: the same transcription with
+   name_set_.emplace(name) moved above the duplicate-object test keeps the half-done mutation
+   when that test throws. *)
+Local Open Scope err_scope.
+Definition add_param_swapped (m : mid) (nm : name) (p : pid) : M world unit :=
+  w <- get ;;
+  if match find_kv nm (param_kv (getm w m)) with Some p' => Nat.eqb p' p | None => false end
+  then ret tt
+  else
+    (w <- get ;; guard (negb (mem_name nm (name_set (getm w m))))) ;;;
+    upd m (fun s => mkM (param_kv s) (submodel_kv s) (names_emplace nm (name_set s)) (param_set s) (submodel_set s)) ;;;
+    (w <- get ;; guard (negb (mem_id p (param_set (getm w m))))) ;;;
+    upd m (fun s => mkM (param_kv s) (submodel_kv s) (name_set s) (ids_emplace p (param_set s)) (submodel_set s)) ;;;
+    upd m (fun s => mkM (kv_emplace nm p (param_kv s)) (submodel_kv s) (name_set s) (param_set s) (submodel_set s)).
+
+Lemma add_param_swapped_refuted :
+  exists w w', reachable_world 1 w /\ add_param_swapped 0 [98%N] 7 w = (None, w') /\ w' <> w.
+Proof.
+  exists (run [AddP 0 [97%N] 7] (empty_world 1)).
+  exists [mkM [([97%N], 7)] [] [[98%N]; [97%N]] [7] []].
+  split; [|split].
+  - exists [AddP 0 [97%N] 7]. split; [repeat constructor|reflexivity].
+  - vm_compute. reflexivity.
+  - vm_compute. discriminate.
+Qed.
